@@ -39,6 +39,8 @@ WC == <<P("world", "C", 1)>>
 PB == <<P("$payer", "B", 2)>>
 A2 == <<P("A", "B", 4)>>
 ABC == <<P("A", "B", 1), P("B", "C", 1)>>
+\* two postings of the same amount in two assets
+TWO == <<P("world", "B", 1), P("world", "BE", 1)>>
 \* a shape with a self-transfer, a zero amount and a repeated pair
 ODD == <<P("world", "A", 1), P("A", "A", 1), P("A", "B", 0), P("A", "B", 1)>>
 
@@ -51,7 +53,7 @@ PalRef == <<CreateRef(WB, "r1"), CreateRef(WC, "r1"), CreateRef(A2, "r1"), Creat
 PalIk == <<CreateIk(WB, "k1", 0), CreateIk(WB, "k1", 1), CreateIkDry(WB, "k1"), CreateIkMeta(WC, "k4", 0), CreateIkMeta(WC, "k4", 1), SetAcctIk("B", "v", "k2", 0), SetAcctIk("B", "v", "k2", 1),
            RevertIk(0, "k3", 0), RevertIk(0, "k3", 1), RevertIk(1, "k3", 1)>>
 \* C10: racing reverts, forced and not, racing with a spend of the funds
-PalRevert == <<Revert(0, FALSE), Revert(0, TRUE), Create(AB, "lit"), Create(ABC, "lit"), Create(ODD, "lit"), Revert(1, FALSE), Revert(1, TRUE)>>
+PalRevert == <<Revert(0, FALSE), Revert(0, TRUE), Create(AB, "lit"), Create(ABC, "lit"), Create(ODD, "lit"), Create(TWO, "lit"), Revert(1, FALSE), Revert(1, TRUE)>>
 \* C05 / C06 / C16: every kind of writer
 PalKinds == <<Create(WB, "lit"), Create(AB, "lit"), Revert(0, FALSE), SetAcct("B", "v"), DelAcct("B"), SetTx(0), DelTx(0), SetTx(7), CreateOd(A2)>>
 \* C05 / C06: writers before and after a restart
